@@ -165,7 +165,12 @@ def check(prop, tier, seed, replay=None):
             else:
                 lines_out.append("note: listed finding %s did not reproduce in this run" % f["class"])
 
+    concrete = [v for v in violations if not v[2]]
     for text, path, nofail in violations:
+        if nofail and concrete:
+            # a theorem / correspondence no longer checks AND a concrete failing input was found: point at that input
+            with open(path, "a") as f: f.write("# failing input found by the same run: see %s\n%s\n" % (concrete[0][1], open(concrete[0][1]).read()))
+            nofail = False
         lines_out.append("VIOLATION property=%s replay=%s%s" % (pid, path, " no-failing-input-found" if nofail else ""))
         lines_out.append("  detail: " + text[:400])
 
